@@ -7,6 +7,7 @@
 #include <nitro/env/get.hpp>
 
 #include <cxxabi.h>
+#include <sys/auxv.h>
 #include <map>
 #include <memory>
 
@@ -111,6 +112,11 @@ int main(int argc, char** argv)
                 dls.clear();
                 out("X ok");
                 end_case();
+            }
+            else if (c == "MODE")
+            {
+                out(std::string("M secure=") + (getauxval(AT_SECURE) ? "1" : "0") + " uid=" + std::to_string(getuid()) +
+                    " euid=" + std::to_string(geteuid()));
             }
             else if (c == "ENVSET")
             {
